@@ -1,3 +1,4 @@
+pub mod expr;
 pub mod list;
 pub mod num;
 pub mod rngs;
